@@ -279,6 +279,13 @@ class C08(Check):
                 else:
                     try:
                         comp = fs1.check()
+                        # (what the independent checker already said about the filesystem before the resize is not the
+                        # resize's doing: compare by rule and by the inode the complaint names)
+                        try:
+                            before = set((c.rule, re.sub(r"\d+", "#", c.detail.split(" is ")[0])) for c in fs0.check())
+                        except Exception:
+                            before = set()
+                        comp = [c for c in comp if (c.rule, re.sub(r"\d+", "#", c.detail.split(" is ")[0])) not in before]
                         if comp:
                             o.violate("success|refext4|%s|%s" % (ck, comp[0].rule), "independent checker complains (%d): %s -- %s" %
                                       (len(comp), "; ".join("%s %s" % (c.rule, c.detail) for c in comp[:3]), where), skey="success|refext4")
